@@ -12,7 +12,7 @@ use serde_json::{json, Value};
 
 use crate::report;
 
-const MIRI_DIR: &str = "/verif/miri-c14";
+
 const BASE_FLAGS: &str = "-Zmiri-preemption-rate=0.05 -Zmiri-disable-stacked-borrows -Zmiri-disable-validation";
 pub const N_SCENARIOS: u64 = 8;
 
@@ -20,9 +20,9 @@ fn run_miri(scenario: u64, seed_flag: &str, timeout_s: u64) -> Result<(bool, Str
     let flags = format!("{} {}", seed_flag, BASE_FLAGS);
     let out = Command::new("timeout")
         .arg(timeout_s.to_string())
-        .args(["cargo", "+nightly", "miri", "run", "--offline", "--target-dir", "/verif/target/miri", "--"])
+        .args(["cargo", "+nightly", "miri", "run", "--offline", "--target-dir", &format!("{}/target/miri", report::verif_dir()), "--"])
         .arg(scenario.to_string())
-        .current_dir(MIRI_DIR)
+        .current_dir(format!("{}/miri-c14", report::verif_dir()))
         .env("MIRIFLAGS", flags)
         .env("CARGO_NET_OFFLINE", "true")
         .env("CARGO_TERM_COLOR", "never")
